@@ -147,7 +147,9 @@ func replayShapeHTTP(c *Ctx, run *ev.Run, s *dagm.Sess, sh kvShape, placements [
 			if !ok {
 				d := c01Divergence{Kind: "http-read", Par: sh.Par, Placement: placementString(p, n), Query: v,
 					Expected: want, Algo: sh.Algo[p][v-1], Observed: obs}
-				if want >= 0 && r.Status != 200 && r.Status != 404 && sh.Algo[p][v-1] == -1 && run.KnownActive(c01InnerMerge) {
+				// known finding: the resolver errs inside an inner merge (GetBestKeyVersion turns the error
+				// into "no key", so the GET may answer 404 as well as 400) where the transcription errs too
+				if want > 0 && r.Status != 200 && sh.Algo[p][v-1] == -1 && run.KnownActive(c01InnerMerge) {
 					run.ReportKnown(c01InnerMerge)
 					continue
 				}
@@ -186,6 +188,7 @@ func replayShapeSynthetic(c *Ctx, run *ev.Run, s *dagm.Sess, sh kvShape, shuffle
 			ok := g == want || (want == -1 && g == -1)
 			if !ok {
 				if want >= 0 && g == -1 && sh.Algo[p][v-1] == -1 && run.KnownActive(c01InnerMerge) {
+					// (for want == 0 the caller-visible outcome of the HTTP path, 404, is even right)
 					run.ReportKnown(c01InnerMerge)
 					continue
 				}
